@@ -16,20 +16,16 @@ type Replayer struct {
 
 func (r *Replayer) Replay(process func(record []byte) error) (err error) {
 	var walFiles []string
-	err = filepath.Walk(r.walOptions.basePath, func(path string, info os.FileInfo, err error) error {
-		if err != nil {
-			return err
-		}
-
-		if !info.IsDir() && strings.HasSuffix(info.Name(), defaultWalSuffix) {
-			walFiles = append(walFiles, path)
-		}
-
-		return nil
-	})
-
+	// the directory is listed rather than walked: filepath.Walk does not follow a base path that is a symbolic link
+	entries, err := os.ReadDir(r.walOptions.basePath)
 	if err != nil {
 		return fmt.Errorf("error while walking WAL structure under '%s': %w", r.walOptions.basePath, err)
+	}
+
+	for _, entry := range entries {
+		if !entry.IsDir() && strings.HasSuffix(entry.Name(), defaultWalSuffix) {
+			walFiles = append(walFiles, filepath.Join(r.walOptions.basePath, entry.Name()))
+		}
 	}
 
 	// do not rely on the order of the FS, we do an additional sort to make sure we start reading from 0000 to 9999
